@@ -135,3 +135,335 @@ Proof.
   eapply parse_loop_keys; [constructor| |exact H].
   intros k Hk. subst t0. eapply scan_id_nonempty; exact S.
 Qed.
+
+(* ------------------------------------------------------------------ list / association-list facts *)
+Lemma keys_update {A} k (v : A) kv : map fst (update k v kv) = map fst kv.
+Proof.
+  induction kv as [|[k1 v1] r IH]; simpl; [reflexivity|].
+  destruct (bytes_eqb k k1); simpl; [reflexivity|now rewrite IH].
+Qed.
+Lemma Forall_update {A} (P : A -> Prop) k v kv :
+  Forall (fun p => P (snd p)) kv -> P v -> Forall (fun p => P (snd p)) (update k v kv).
+Proof.
+  intros H Hv. induction kv as [|[k1 v1] r IH]; simpl; [constructor|].
+  inversion H; subst. destruct (bytes_eqb k k1); constructor; auto.
+Qed.
+Lemma update_in {A} k (v c0 : A) kv : lookup k kv = Some c0 -> exists k', In (k', v) (update k v kv).
+Proof.
+  induction kv as [|[k1 v1] r IH]; simpl; [discriminate|].
+  destruct (bytes_eqb k k1).
+  - intros _. exists k1. now left.
+  - intros H. destruct (IH H) as [k' Hin]. exists k'. now right.
+Qed.
+Lemma NoDup_snoc {A} (l : list A) k : NoDup l -> ~ In k l -> NoDup (l ++ [k]).
+Proof.
+  induction l as [|a l IH]; intros Hn Hk; simpl.
+  - constructor; [intros []|constructor].
+  - inversion Hn; subst. constructor.
+    + intros Hin. apply in_app_or in Hin as [Hin|[Hin|[]]]; [contradiction|]. subst. apply Hk. now left.
+    + apply IH; [assumption|]. intros Hin. apply Hk. now right.
+Qed.
+Lemma Forall_set_nth {A} (P : A -> Prop) j x l : Forall P l -> P x -> Forall P (set_nth j x l).
+Proof.
+  intros H Hx. revert j. induction H as [|y r Hy Hr IH]; intros [|j]; simpl; constructor; auto.
+Qed.
+Lemma set_nth_in {A} j (x : A) l : (j < length l)%nat -> In x (set_nth j x l).
+Proof.
+  revert j. induction l as [|y r IH]; intros [|j] H; simpl in *; try lia; [now left|]. right. apply IH. lia.
+Qed.
+Lemma Forall_nth_default {A} (P : A -> Prop) j l d : Forall P l -> P d -> P (nth j l d).
+Proof.
+  intros H Hd. revert j. induction H as [|y r Hy Hr IH]; intros [|j]; simpl; auto.
+Qed.
+Lemma Forall_insert_nth {A} (P : A -> Prop) j x l : Forall P l -> P x -> Forall P (insert_nth j x l).
+Proof.
+  unfold insert_nth. intros H Hx. revert j. induction H as [|y r Hy Hr IH]; intros j.
+  - destruct j; simpl; constructor; auto.
+  - destruct j as [|j]; simpl.
+    + constructor; [exact Hx|]. constructor; assumption.
+    + constructor; [exact Hy|]. apply IH.
+Qed.
+Lemma length_insert_nth {A} j (x : A) l : (j <= length l)%nat -> length (insert_nth j x l) = S (length l).
+Proof.
+  unfold insert_nth. intros H. rewrite app_length. simpl. rewrite firstn_length, skipn_length. lia.
+Qed.
+Lemma Forall_remove_nth {A} (P : A -> Prop) j l : Forall P l -> Forall P (remove_nth j l).
+Proof.
+  intros H. revert j. induction H as [|y r Hy Hr IH]; intros [|j]; simpl; auto.
+Qed.
+Lemma length_remove_nth {A} j (l : list A) : (length (remove_nth j l) <= length l)%nat.
+Proof.
+  revert j. induction l as [|y r IH]; intros [|j]; simpl; try lia. specialize (IH j). lia.
+Qed.
+Lemma remove_key_sub {A} k (kv : list (bytes * A)) p : In p (remove_key k kv) -> In p kv.
+Proof.
+  induction kv as [|[k1 v1] r IH]; simpl; [auto|].
+  destruct (bytes_eqb k k1); [now right|]. intros [H|H]; [now left|right; auto].
+Qed.
+Lemma NoDup_remove_key {A} k (kv : list (bytes * A)) : NoDup (map fst kv) -> NoDup (map fst (remove_key k kv)).
+Proof.
+  induction kv as [|[k1 v1] r IH]; simpl; intros H; [constructor|].
+  inversion H; subst. destruct (bytes_eqb k k1); [assumption|]. simpl. constructor; [|auto].
+  intros Hin. apply H2. apply in_map_iff in Hin as [[k2 v2] [E Hin]]. simpl in E. subst k2.
+  apply remove_key_sub in Hin. apply in_map_iff. exists (k1, v2). auto.
+Qed.
+
+Lemma wf_as_map n : wf n -> keys_ok (map fst (map_entries n)) /\ wf_vals (map_entries n).
+Proof.
+  intros H. destruct n; simpl; try (split; [split; constructor|constructor]). now apply wf_map.
+Qed.
+Lemma wf_as_list n :
+  wf n -> wf_items (fst (list_parts n)) /\ (Z.of_nat (length (fst (list_parts n))) < INT_MAX)%Z.
+Proof.
+  intros H. destruct n; simpl; try (split; [constructor|reflexivity]).
+  apply wf_list in H. tauto.
+Qed.
+
+Lemma list_extend_spec vec al i vec1 al1 j :
+  list_extend vec al i = Some (vec1, al1, j) -> Forall wf vec -> Forall wf vec1 /\ (j < length vec1)%nat.
+Proof.
+  unfold list_extend. intros H Hv.
+  destruct (i <? 0)%Z eqn:E0; [discriminate|]. apply Z.ltb_ge in E0.
+  destruct (i <? Z.of_nat (length vec))%Z eqn:E1.
+  - injection H as <- _ <-. apply Z.ltb_lt in E1. split; [assumption|lia].
+  - destruct (i =? INT_MAX)%Z; [discriminate|]. injection H as <- _ <-. apply Z.ltb_ge in E1. split.
+    + apply Forall_app. split; [assumption|]. apply Forall_forall. intros x Hx.
+      apply repeat_spec in Hx. subst. exact I.
+    + rewrite app_length, repeat_length.
+      assert (length vec <= Z.to_nat i)%nat by (apply Nat2Z.inj_le; rewrite Z2Nat.id; lia).
+      destruct (length vec); lia.
+Qed.
+Lemma list_insert_spec vec al i vec1 al1 j :
+  list_insert vec al i = Some (vec1, al1, j) -> Forall wf vec -> Forall wf vec1 /\ (j < length vec1)%nat.
+Proof.
+  unfold list_insert. intros H Hv.
+  destruct (i <? 0)%Z eqn:E0; [discriminate|]. apply Z.ltb_ge in E0.
+  destruct (i <? Z.of_nat (length vec))%Z eqn:E1.
+  - injection H as <- _ <-. apply Z.ltb_lt in E1. split.
+    + apply Forall_insert_nth; [assumption|exact I].
+    + rewrite length_insert_nth by lia. lia.
+  - eapply list_extend_spec; [exact H|exact Hv].
+Qed.
+
+(* ------------------------------------------------------------------ descend (set) keeps well-formedness *)
+Lemma descend_set_wf {A} : forall es (fin : node -> node * A),
+    Forall key_ok es ->
+    (forall a, wf a -> lens (fst (fin a)) -> wf (fst (fin a))) ->
+    forall n, wf n -> lens (fst (descend_set es fin n)) -> wf (fst (descend_set es fin n)).
+Proof.
+  induction es as [|e es IH]; intros fin Hk Hfin n Hw Hl.
+  - cbn [descend_set] in *. destruct (fin n) as [n' a] eqn:F. cbn [fst] in *.
+    specialize (Hfin n Hw). rewrite F in Hfin. cbn [fst] in Hfin. exact (Hfin Hl).
+  - inversion Hk as [|? ? Hke Hkes]; subst.
+    assert (LIST : forall vec1 al1 j,
+               Forall wf vec1 -> (j < length vec1)%nat ->
+               lens (fst (let '(c', r) := descend_set es fin (nth j vec1 NNull) in
+                          (NList (set_nth j c' vec1) al1, r))) ->
+               wf (fst (let '(c', r) := descend_set es fin (nth j vec1 NNull) in
+                        (NList (set_nth j c' vec1) al1, r)))).
+    { intros vec1 al1 j Hv Hj Hl1.
+      destruct (descend_set es fin (nth j vec1 NNull)) as [c' r] eqn:D. cbn [fst] in *.
+      apply lens_list in Hl1 as [Hb Hf]. apply wf_list. split; [exact Hb|].
+      apply Forall_set_nth; [exact Hv|].
+      replace c' with (fst (descend_set es fin (nth j vec1 NNull))) by now rewrite D.
+      apply IH; [assumption|assumption| |].
+      - apply Forall_nth_default; [exact Hv|exact I].
+      - rewrite D. cbn [fst]. rewrite Forall_forall in Hf. apply Hf. now apply set_nth_in. }
+    destruct e; cbn [descend_set] in *.
+    + (* E_MAP *)
+      destruct (wf_as_map n Hw) as [K V].
+      destruct (fin (NMap (map_entries n))) as [n' a] eqn:F. cbn [fst] in *.
+      specialize (Hfin (NMap (map_entries n))). rewrite F in Hfin. cbn [fst] in Hfin. apply Hfin; [|exact Hl].
+      apply wf_map. split; assumption.
+    + (* E_MAP_ELEMENT *)
+      destruct (wf_as_map n Hw) as [K V].
+      destruct (lookup k (map_entries n)) as [child|] eqn:L.
+      * destruct (descend_set es fin child) as [c' r] eqn:D. cbn [fst] in *.
+        apply lens_map in Hl. apply wf_map. split.
+        -- now rewrite keys_update.
+        -- apply Forall_update; [exact V|].
+           replace c' with (fst (descend_set es fin child)) by now rewrite D.
+           apply IH; [assumption|assumption| |].
+           ++ destruct (lookup_in _ _ _ L) as [k' Hin]. unfold wf_vals in V. rewrite Forall_forall in V.
+              apply (V _ Hin).
+           ++ rewrite D. cbn [fst]. destruct (update_in k c' child _ L) as [k' Hin].
+              rewrite Forall_forall in Hl. apply (Hl _ Hin).
+      * destruct (descend_set es fin NNull) as [c' r] eqn:D. cbn [fst] in *.
+        apply lens_map in Hl. apply wf_map. split.
+        -- rewrite map_app. cbn [map fst]. destruct K as [K1 K2]. split.
+           ++ apply NoDup_snoc; [exact K1|]. now apply lookup_none_iff.
+           ++ apply Forall_app. split; [exact K2|]. constructor; [exact Hke|constructor].
+        -- apply Forall_app. split; [exact V|]. constructor; [|constructor]. cbn [snd].
+           replace c' with (fst (descend_set es fin NNull)) by now rewrite D.
+           apply IH; [assumption|assumption|exact I|].
+           rewrite D. cbn [fst]. apply Forall_app in Hl as [_ Hl]. now inversion Hl.
+    + (* E_LIST *)
+      destruct (wf_as_list n Hw) as [V B]. destruct (list_parts n) as [vec al]. cbn [fst] in *.
+      destruct (fin (NList vec al)) as [n' a] eqn:F. cbn [fst] in *.
+      specialize (Hfin (NList vec al)). rewrite F in Hfin. cbn [fst] in Hfin. apply Hfin; [|exact Hl].
+      apply wf_list. split; assumption.
+    + (* E_LIST_ELEMENT *)
+      destruct (wf_as_list n Hw) as [V B]. destruct (list_parts n) as [vec al]. cbn [fst] in *.
+      destruct (list_extend vec al i) as [[[vec1 al1] j]|] eqn:X.
+      * destruct (list_extend_spec _ _ _ _ _ _ X V) as [V1 J]. now apply LIST.
+      * cbn [fst]. apply wf_list. split; assumption.
+    + (* E_LIST_INSERT *)
+      destruct (wf_as_list n Hw) as [V B]. destruct (list_parts n) as [vec al]. cbn [fst] in *.
+      destruct (list_insert vec al i) as [[[vec1 al1] j]|] eqn:X.
+      * destruct (list_insert_spec _ _ _ _ _ _ X V) as [V1 J]. now apply LIST.
+      * cbn [fst]. apply wf_list. split; assumption.
+    + (* E_LIST_APPEND *)
+      destruct (wf_as_list n Hw) as [V B]. destruct (list_parts n) as [vec al]. cbn [fst] in *.
+      unfold list_append in *. apply LIST; [| |exact Hl].
+      * apply Forall_app. split; [exact V|]. constructor; [exact I|constructor].
+      * rewrite app_length. simpl. lia.
+    + (* E_DOT *)
+      destruct (fin n) as [n' a] eqn:F. cbn [fst] in *.
+      specialize (Hfin n Hw). rewrite F in Hfin. cbn [fst] in Hfin. exact (Hfin Hl).
+Qed.
+
+(* ------------------------------------------------------------------ delete keeps well-formedness *)
+Lemma delete_at_wf : forall es n, wf n -> wf (delete_at es n).
+Proof.
+  induction es as [|e es IH]; intros n Hw; [exact I|].
+  destruct e; try exact I.
+  - destruct (wf_as_map n Hw) as [[K1 K2] V]. destruct es as [|e' es'].
+    + cbn [delete_at]. apply wf_map. split; [split|].
+      * now apply NoDup_remove_key.
+      * apply Forall_forall. intros k0 Hin. apply in_map_iff in Hin as [[k1 v1] [E Hin]]. simpl in E. subst k1.
+        apply remove_key_sub in Hin. rewrite Forall_forall in K2. apply K2. apply in_map_iff. exists (k0, v1). auto.
+      * apply Forall_forall. intros p Hin. apply remove_key_sub in Hin.
+        unfold wf_vals in V. rewrite Forall_forall in V. auto.
+    + rewrite delete_at_key_cons. destruct (lookup k (map_entries n)) as [c|] eqn:L; [|exact Hw].
+      apply wf_map. split; [rewrite keys_update; split; assumption|].
+      apply Forall_update; [exact V|]. apply IH.
+      destruct (lookup_in _ _ _ L) as [k' Hin]. unfold wf_vals in V. rewrite Forall_forall in V. apply (V _ Hin).
+  - destruct (wf_as_list n Hw) as [V B]. destruct es as [|e' es'].
+    + cbn [delete_at]. destruct (list_parts n) as [vec al]. cbn [fst] in *. apply wf_list. split.
+      * pose proof (length_remove_nth (Z.to_nat i) vec). lia.
+      * now apply Forall_remove_nth.
+    + rewrite delete_at_idx_cons. apply wf_list. split.
+      * now rewrite length_set_nth.
+      * apply Forall_set_nth; [exact V|]. apply IH. apply Forall_nth_default; [exact V|exact I].
+Qed.
+
+(* ------------------------------------------------------------------ well-formedness only depends on the document *)
+Lemma Forall2_wf_transfer (P : node -> Prop) l1 : 
+  Forall (fun x => forall y, abs x = abs y -> wf x -> wf y) l1 ->
+  forall l2, map abs l1 = map abs l2 -> Forall wf l1 -> Forall wf l2.
+Proof.
+  induction 1 as [|x r Hx Hr IH]; intros [|y l2] E Hw; try discriminate; [constructor|].
+  simpl in E. injection E as E1 E2. inversion Hw; subst. constructor; [eapply Hx; eauto|now apply IH].
+Qed.
+
+Lemma wf_abs_eq : forall n1 n2, abs n1 = abs n2 -> wf n1 -> wf n2.
+Proof.
+  induction n1 as [| v | kv IH | vec al IH] using node_ind'; intros n2 E Hw.
+  - destruct n2; try discriminate. exact I.
+  - destruct n2; try discriminate. exact I.
+  - destruct n2 as [| |kv2|]; try discriminate. simpl in E. injection E as E.
+    apply wf_map in Hw as [K V]. apply wf_map. split.
+    + rewrite <- (keys_map abs absp absp_ok kv2). change (fun p : bytes * node => let '(k, v) := p in (k, abs v)) with absp in E.
+      rewrite <- E. now rewrite (keys_map abs absp absp_ok).
+    + change (fun p : bytes * node => let '(k, v) := p in (k, abs v)) with absp in E.
+      clear K. revert kv2 E. unfold wf_vals in *.
+      induction IH as [|[k1 v1] r Hx Hr IHr]; intros [|[k2 v2] kv2] E; try discriminate; [constructor|].
+      simpl in E. injection E as Ek Ev Er. inversion V; subst. constructor.
+      * simpl in *. eapply Hx; eauto.
+      * apply IHr; assumption.
+  - destruct n2 as [| | |vec2 al2]; try discriminate. simpl in E. injection E as E.
+    apply wf_list in Hw as [B V]. apply wf_list. split.
+    + rewrite <- (map_length abs vec2), <- E, map_length. exact B.
+    + eapply (Forall2_wf_transfer (fun _ => True)); eauto.
+Qed.
+
+Lemma copy_wf dest src : wf src -> wf (copy dest src).
+Proof. intros H. apply (wf_abs_eq src); [symmetry; now apply copy_abs|exact H]. Qed.
+
+(* ------------------------------------------------------------------ entry points *)
+Lemma fst_let_sum {A B C} (X : node * (A + B)) (f : A -> C) (g : C) :
+  fst (let '(a, r) := X in match r with inl e => (a, f e) | inr _ => (a, g) end) = fst X.
+Proof. destruct X as [a [e|u]]; reflexivity. Qed.
+
+Lemma vset_wf root d : wf root -> lens (fst (vset root d)) -> wf (fst (vset root d)).
+Proof.
+  unfold vset. intros Hw. destruct (parse d) as [[[es t] rest]|] eqn:P; [|intros _; exact Hw].
+  pose proof (parse_keys _ _ _ _ P) as Hk.
+  destruct (last_is_collection es); [intros _; exact Hw|].
+  destruct t; try (intros _; exact Hw); rewrite fst_let_sum; apply descend_set_wf; auto; intros; exact I.
+Qed.
+
+Lemma vdelete_wf root d : wf root -> wf (fst (vdelete root d)).
+Proof.
+  unfold vdelete. intros Hw. destruct (parse d) as [[[es t] rest]|]; [|exact Hw].
+  destruct (descend_get es root); [exact Hw|]. destruct (is_eof t); [|exact Hw]. now apply delete_at_wf.
+Qed.
+
+Lemma vset_subtree_then_wf {A} root d (inner : node -> node * A) :
+  wf root -> (forall a, wf a -> lens (fst (inner a)) -> wf (fst (inner a))) ->
+  lens (fst (vset_subtree_then root d inner)) -> wf (fst (vset_subtree_then root d inner)).
+Proof.
+  unfold vset_subtree_then. intros Hw Hin. destruct (parse d) as [[[es t] rest]|] eqn:P; [|intros _; exact Hw].
+  destruct (is_eof t); [|intros _; exact Hw]. apply descend_set_wf; auto. eapply parse_keys; eauto.
+Qed.
+
+(* ------------------------------------------------------------------ operation sequences *)
+Definition lens_state (s : state) : Prop := lens (st_root s) /\ lens (st_aux s).
+
+Lemma step_wf s o : wf_state s -> lens_state (fst (step s o)) -> wf_state (fst (step s o)).
+Proof.
+  intros [Hr Ha]. destruct s as [root aux]. cbn [st_root st_aux] in *.
+  destruct o; unfold step; cbn [st_root st_aux].
+  - destruct (vset root d) as [r' out] eqn:E. intros [L1 L2]. split; [|exact Ha]. cbn [fst st_root] in *.
+    replace r' with (fst (vset root d)) in * by now rewrite E. now apply vset_wf.
+  - destruct (vdelete root d) as [r' out] eqn:E. intros _. split; [|exact Ha]. cbn [fst st_root].
+    replace r' with (fst (vdelete root d)) by now rewrite E. now apply vdelete_wf.
+  - intros _. now split.
+  - intros _. now split.
+  - intros _. now split.
+  - intros _. now split.
+  - intros _. now split.
+  - unfold vset_subtree. destruct (vset_subtree_then root d _) as [r' res] eqn:E. intros [L1 L2].
+    split; [|exact Ha]. cbn [fst st_root] in *.
+    replace r' with (fst (vset_subtree_then root d (fun n => (n, tt)))) in * by now rewrite E.
+    apply vset_subtree_then_wf; auto.
+  - destruct (vset_subtree_then root d _) as [r' res] eqn:E. intros [L1 L2].
+    split; [|exact Ha]. cbn [fst st_root] in *.
+    replace r' with (fst (vset_subtree_then root d (fun a => vset a d2))) in * by now rewrite E.
+    apply vset_subtree_then_wf; auto. intros a Hwa. now apply vset_wf.
+  - destruct (vset_subtree_then root d _) as [r' res] eqn:E. intros [L1 L2].
+    split; [|exact Ha]. cbn [fst st_root] in *.
+    replace r' with (fst (vset_subtree_then root d (fun a => vdelete a d2))) in * by now rewrite E.
+    apply vset_subtree_then_wf; auto. intros a Hwa _. now apply vdelete_wf.
+  - intros _. split; [exact Hr|]. cbn [fst st_aux]. apply copy_wf.
+    destruct (get_node root d) as [e|n] eqn:G; [exact I|]. exact (get_node_wf root d n Hr G).
+  - destruct (vset_subtree_then root d _) as [r' res] eqn:E. intros [L1 L2].
+    split; [|exact Ha]. cbn [fst st_root] in *.
+    replace r' with (fst (vset_subtree_then root d (fun a => (copy a aux, ok0)))) in * by now rewrite E.
+    apply vset_subtree_then_wf; auto. intros a _ _. cbn [fst]. now apply copy_wf.
+  - intros _. now split.
+Qed.
+
+(* no list reaches 2^31 - 1 elements in any state met while running the script *)
+Fixpoint lens_run (s : state) (ops : list op) : Prop :=
+  lens_state s /\ match ops with [] => True | o :: r => lens_run (fst (step s o)) r end.
+
+Lemma wf_run_of_lens : forall ops s, wf_state s -> lens_run s ops -> wf_run s ops.
+Proof.
+  induction ops as [|o ops IH]; intros s Hw Hl; simpl; [tauto|].
+  split; [exact Hw|]. destruct Hl as [_ Hl]. apply IH; [|exact Hl].
+  apply step_wf; [exact Hw|]. destruct ops; simpl in Hl; tauto.
+Qed.
+
+Theorem sim_run_full ops s :
+  wf_state s -> lens_run s ops ->
+  d_run (abs_state s) ops = (abs_state (fst (run s ops)), map abs_out (snd (run s ops))).
+Proof. intros Hw Hl. apply sim_run. now apply wf_run_of_lens. Qed.
+
+Theorem sim_run_from_empty ops :
+  lens_run init_state ops ->
+  d_run d_init ops = (abs_state (fst (run init_state ops)), map abs_out (snd (run init_state ops))).
+Proof. intros Hl. apply (sim_run_full ops init_state); [split; exact I|exact Hl]. Qed.
+
+Lemma lens_run_example : lens_run init_state example_ops.
+Proof. vm_compute. repeat split; reflexivity. Qed.
